@@ -244,6 +244,64 @@ def check_close(ctx):
     ctx.count('native close call sites', len(native))
 
 
+def check_close_local(ctx, rule='R-CLOSELOCAL'):
+    """closing is local: close / the finaliser / the context-manager exit of a file object closes only what the object opened itself.
+    An attribute that was bound from a constructor argument as it is (the file the object wraps or derives from) belongs to the caller:
+    closing it invalidates the caller's still-open file."""
+    ctx.rule(rule, 'close / __del__ / __exit__ of a class never close an object that was handed to the constructor (only what the class opened)')
+    n = 0
+    for mod in ctx.src.all_modules():
+        for cname, c in mod.classes.items():
+            if '.' in cname:
+                continue
+            meths = dict((st.name, st) for st in c.body if isinstance(st, ast.FunctionDef))
+            closers = [meths[k] for k in ('close', '__del__', '__exit__') if k in meths]
+            if not closers:
+                continue
+            # attributes of self that hold a constructor argument as it is
+            foreign = {}
+            for mname in ('__init__', '__new__'):
+                fn = meths.get(mname)
+                if fn is None:
+                    continue
+                params = set(a.arg for a in fn.args.args[1:] + fn.args.kwonlyargs)
+                star = set(x.arg for x in (fn.args.vararg, fn.args.kwarg) if x is not None)
+                local = {}
+                for st in iter_stmts(fn.body):
+                    if not isinstance(st, ast.Assign) or len(st.targets) != 1:
+                        continue
+                    v = st.value
+                    is_arg = (isinstance(v, ast.Name) and (v.id in params or local.get(v.id))) or \
+                        (isinstance(v, ast.Subscript) and isinstance(v.value, ast.Name) and v.value.id in star) or \
+                        (isinstance(v, ast.Call) and isinstance(v.func, ast.Attribute) and v.func.attr in ('get', 'pop') and isinstance(v.func.value, ast.Name)
+                         and v.func.value.id in star)
+                    t = st.targets[0]
+                    if isinstance(t, ast.Name):
+                        local[t.id] = bool(is_arg)
+                    elif isinstance(t, ast.Attribute) and isinstance(t.value, ast.Name) and t.value.id == fn.args.args[0].arg:
+                        if is_arg:
+                            foreign[t.attr] = st
+                        else:
+                            foreign.pop(t.attr, None)
+            for fn in closers:
+                n += 1
+                q = '%s.%s' % (cname, fn.name)
+                recv = fn.args.args[0].arg if fn.args.args else 'self'
+                bad = None
+                for call in walk_expr(fn):
+                    if isinstance(call, ast.Call) and isinstance(call.func, ast.Attribute) and call.func.attr in ('close', '__exit__', '__del__'):
+                        b = call.func.value
+                        if isinstance(b, ast.Attribute) and isinstance(b.value, ast.Name) and b.value.id == recv and b.attr in foreign:
+                            bad = (call, b.attr)
+                where = 'src/PseudoNetCDF/%s %s' % (mod.relpath, q)
+                if bad:
+                    ctx.violation(Finding(rule, mod.relpath, q, bad[0], '%s closes %s.%s, the object that was handed to the constructor (%s): closing the derived object invalidates '
+                                          "the caller's still-open file" % (fn.name, recv, bad[1], norm(foreign[bad[1]])[:50])))
+                else:
+                    ctx.ok(rule, q, where, 'closes nothing that was handed to the constructor (%d such attributes)' % len(foreign))
+    ctx.floor('close / finaliser methods examined', n, 4)
+
+
 def _dominated_by_isopen(meth, call):
     """path-wise (paths.py): on every path of the method that reaches the native close, the last decision taken before it on
     self.isopen() (directly or through a local that holds its result) was 'open'; the spelling - enclosing if, early return for
@@ -293,6 +351,7 @@ def run(ctx):
     n += check_qmut(ctx, 'core/_wrapnc.py', classes=('WrapPNC',))
     ctx.floor('functions under R-QMUT', n, 150)
     check_close(ctx)
+    check_close_local(ctx)
     ctx.assumptions += [
         'numpy view/copy fact table in pncstatic/prov.py (basic indexing, .T, .view, swapaxes, asarray are views; '
         'arithmetic, copy, astype, advanced indexing, concatenate are fresh)',
